@@ -190,9 +190,11 @@ class G:
                 js["alias"] = self.alias("x")
                 nm = js["alias"]
             used_names.add(nm)
-            how = self.d(st.sampled_from(["inner", "left", "cross", "inner"]))
+            how = self.d(st.sampled_from(["inner", "left", "cross", "inner", "left", "right", "full"]))
             scope_now = [(s["key"], self.cols_of(s)) for s in sources + [j["src"] for j in joins] + [js]]
             j = {"src": js, "how": how, "on": None, "using": None}
+            # the same join can be asked for in several ways: join(item, <enum member>) or one of the shortcut methods
+            j["spell"] = self.d(st.sampled_from(SPELLINGS[how]))
             if how != "cross":
                 left_cols = set(c for s in sources + [x["src"] for x in joins] for c in self.cols_of(s)["int"])
                 common = [c for c in self.cols_of(js)["int"] if c in left_cols]
@@ -306,6 +308,8 @@ class G:
                         other["setop"] = [self.d(st.sampled_from(["union", "union_all", "intersect", "except_of"])), third]
         out = {"kind": "select", "sources": sources, "joins": joins, "items": items, "distinct": distinct, "where": where, "group": group, "having": having,
                "order": order, "limit": limit, "offset": offset, "setop": setop}
+        if setop and self.d(st.integers(0, 2)) == 0:
+            out["setop_operator"] = True  # the operators + (UNION) and * (UNION ALL) instead of the methods
         if by_name is not None:
             out["setop_order_by_name"] = by_name
             out["first_limit"] = first_limit
@@ -438,6 +442,13 @@ def case_st(draw):
 
 # ---- emitter 1: the builder program ---------------------------------------------------------------------------------------
 
+SPELLINGS = {
+    "inner": ["enum:inner", "default", "inner_join"],
+    "left": ["enum:left", "enum:left_outer", "left_join", "left_outer_join"],
+    "right": ["enum:right", "enum:right_outer", "right_join", "right_outer_join"],
+    "full": ["enum:outer", "enum:full_outer", "outer_join", "full_outer_join"],
+    "cross": ["enum:cross", "cross_join"],
+}
 FN = {"coalesce": "Coalesce", "abs": "Abs", "length": "Length", "upper": "Upper", "lower": "Lower", "nullif": "NullIf"}
 AGG = {"SUM": "Sum", "COUNT": "Count", "MIN": "Min", "MAX": "Max", "AVG": "Avg"}
 WIN = {"ROW_NUMBER": "RowNumber", "RANK": "Rank", "SUM": "Sum", "MAX": "Max"}
@@ -520,14 +531,21 @@ def P_select(sa):
     for s in sa["sources"]:
         steps.append(["from_", [["src", s["key"]]]])
     for j in sa["joins"]:
-        how = {"inner": "inner", "left": "left", "cross": "cross"}[j["how"]]
+        spell = j.get("spell") or SPELLINGS[j["how"]][0]
+        if spell not in SPELLINGS[j["how"]]:
+            raise HarnessError("join spelling %r for %r" % (spell, j["how"]))
         if j["how"] == "cross":
             then = ["cross", []]
         elif j["using"]:
             then = ["using", [["py", c] for c in j["using"]]]
         else:
             then = ["on", [P_expr(j["on"], True)]]
-        steps.append(["join", [["src", j["src"]["key"]], ["enum", "JoinType", how]], {}, then])
+        if spell.startswith("enum:"):
+            steps.append(["join", [["src", j["src"]["key"]], ["enum", "JoinType", spell[5:]]], {}, then])
+        elif spell == "default":
+            steps.append(["join", [["src", j["src"]["key"]]], {}, then])
+        else:
+            steps.append([spell, [["src", j["src"]["key"]]], {}, then])
     sel = []
     for it in sa["items"]:
         node = P_expr(it["e"], True)
@@ -549,7 +567,10 @@ def P_select(sa):
     if sa["setop"]:
         if sa.get("first_limit") is not None:
             steps.append(["limit", [["raw", sa["first_limit"]]]])  # a clause of the FIRST operand: it becomes a unit of its own
-        steps.append([sa["setop"][0], [["q", P_select(sa["setop"][1])]]])
+        op = sa["setop"][0]
+        if sa.get("setop_operator") and op in ("union", "union_all"):
+            op = {"union": "__add__", "union_all": "__mul__"}[op]  # q1 + q2, q1 * q2
+        steps.append([op, [["q", P_select(sa["setop"][1])]]])
     for i, od in sa["order"]:
         it = sa["items"][i]
         node = P_expr(it["e"], True)
@@ -710,7 +731,7 @@ def R_select(sa, top=True):
     sql += ", ".join(R_expr(it["e"], qual) + (" AS " + Q(it["alias"]) if it["alias"] else "") for it in sa["items"])
     sql += " FROM " + ", ".join(R_source(s) for s in sa["sources"])
     for j in sa["joins"]:
-        kw = {"inner": "INNER JOIN", "left": "LEFT JOIN", "cross": "CROSS JOIN"}[j["how"]]
+        kw = {"inner": "INNER JOIN", "left": "LEFT JOIN", "cross": "CROSS JOIN", "right": "RIGHT JOIN", "full": "FULL OUTER JOIN"}[j["how"]]
         sql += " %s %s" % (kw, R_source(j["src"]))
         if j["using"]:
             sql += " USING (%s)" % ", ".join(Q(c) for c in j["using"])
